@@ -67,6 +67,8 @@ fn dispatch(id: &str, tier: Tier) -> i32 {
         "C11" => props::c11::run(tier),
         "C12" => props::c12::run(tier),
         "C14" => props::c14::run(tier),
+        "C15" => props::c15::run(tier),
+        "C17" => props::c17::run(tier),
         "C18" => props::c18::run(tier),
         _ => {
             eprintln!("MACHINERY-ERROR: no check registered for {}", id);
